@@ -111,6 +111,10 @@ func runC05(e *Env) {
 		return nil
 	})
 
+	closeFails := e.P(5) == 4 // the transport's Close closes the connection but reports an error of its own
+	if closeFails {
+		rig.F.CloseErr = errors.New("transport close: close_notify not sent (simulated)")
+	}
 	nClosers := 1 + e.P(4)
 	kinds := make([]int, nClosers)
 	for i := range kinds {
@@ -130,7 +134,7 @@ func runC05(e *Env) {
 	for _, k := range kinds {
 		desc = append(desc, ckNames[k])
 	}
-	e.Describe("channel=%s holder=%v closers=%v (nil-error: %v) writers=%d inbound-chunks=%d stalls=%v shutdown-racing-connect=%v close-inside-active-handler=%v", cc, useHolder, desc, nilErr, nWriters, feed, e.Sim.StallOK, earlyShutdown, activeClose)
+	e.Describe("channel=%s holder=%v closers=%v (nil-error: %v) writers=%d inbound-chunks=%d stalls=%v shutdown-racing-connect=%v close-inside-active-handler=%v transport-close-reports-error=%v", cc, useHolder, desc, nilErr, nWriters, feed, e.Sim.StallOK, earlyShutdown, activeClose, closeFails)
 
 	var connectRet int64
 	var conn *simnet.Conn
@@ -339,6 +343,7 @@ func runC05(e *Env) {
 	e.Count("read_eofs_fired", conn.Fired.EOFs)
 	e.Count("read_resets_fired", conn.Fired.Resets)
 	e.Count("write_errors_fired", conn.Fired.WriteErrs)
+	e.Count("transport_close_errors_fired", conn.Fired.CloseErrs)
 	if len(recs) >= 2 {
 		e.Count("runs_with_2plus_close_calls", 1)
 	}
